@@ -37,6 +37,84 @@ pub struct Case {
 
 pub struct RevComp;
 
+// A second complementable alphabet, declared by the caller as the public traits allow: RNA in the order
+// A C G U N (complement permutation [3, 2, 1, 0, 4], unlike DNA's [2, 3, 0, 1, 4]). It is reverse-complemented
+// once, before the first DNA matrix of the process: generic code must not let one alphabet's complement
+// table leak into another's. Nothing is asserted about the RNA result itself (the property speaks of DNA).
+#[derive(Clone, Copy, Debug, Default, PartialEq, Eq)]
+#[repr(u8)]
+pub enum Ribo {
+    A = 0,
+    C = 1,
+    G = 2,
+    U = 3,
+    #[default]
+    N = 4,
+}
+
+impl lightmotif::abc::Symbol for Ribo {
+    fn as_index(&self) -> usize {
+        *self as usize
+    }
+    fn as_ascii(&self) -> u8 {
+        b"ACGUN"[*self as usize]
+    }
+    fn from_ascii(c: u8) -> Result<Self, lightmotif::err::InvalidSymbol> {
+        match c {
+            b'A' => Ok(Ribo::A),
+            b'C' => Ok(Ribo::C),
+            b'G' => Ok(Ribo::G),
+            b'U' => Ok(Ribo::U),
+            b'N' => Ok(Ribo::N),
+            _ => Err(lightmotif::err::InvalidSymbol(c as char)),
+        }
+    }
+}
+
+impl lightmotif::abc::ComplementableSymbol for Ribo {
+    fn complement(&self) -> Self {
+        match self {
+            Ribo::A => Ribo::U,
+            Ribo::U => Ribo::A,
+            Ribo::C => Ribo::G,
+            Ribo::G => Ribo::C,
+            Ribo::N => Ribo::N,
+        }
+    }
+}
+
+#[derive(Clone, Copy, Debug, Default, PartialEq, Eq)]
+pub struct Rna;
+
+impl Alphabet for Rna {
+    type Symbol = Ribo;
+    type K = K;
+    fn symbols() -> &'static [Ribo] {
+        &[Ribo::A, Ribo::C, Ribo::G, Ribo::U, Ribo::N]
+    }
+    fn as_str() -> &'static str {
+        "ACGUN"
+    }
+}
+
+static OTHER_ALPHABET_FIRST: std::sync::Once = std::sync::Once::new();
+
+fn use_other_alphabet_first() {
+    OTHER_ALPHABET_FIRST.call_once(|| {
+        let mut dm = DenseMatrix::<u32, K>::new(3);
+        for i in 0..3 {
+            for j in 0..5 {
+                dm[i][j] = (i * 5 + j) as u32;
+            }
+        }
+        let cm = CountMatrix::<Rna>::new(dm).unwrap();
+        let rc = cm.reverse_complement();
+        let f = rc.to_freq(0.5).reverse_complement();
+        let w = f.to_weight(None).reverse_complement();
+        let _ = w.to_scoring().reverse_complement();
+    });
+}
+
 fn close(a: f64, b: f64, tol: f64) -> bool {
     a == b || (a.is_finite() && b.is_finite() && (a - b).abs() <= tol * (1.0 + a.abs().max(b.abs())))
 }
@@ -78,6 +156,7 @@ impl Sub for RevComp {
             .boxed()
     }
     fn check(&self, case: &Case, _cx: &Cx) -> Verdict {
+        use_other_alphabet_first();
         let mut info = CaseInfo::new();
         let m = case.counts.len();
         // ---------------- counts
@@ -280,7 +359,7 @@ pub fn property() -> Property {
         assumptions: vec![
             "commutation is only claimed under strand-symmetric pseudocounts and background (generated symmetric by construction); tolerance 2e-5 because to_freq sums a row in a different column order",
             "mirrored scores are compared within M*2^-22*sum|term| of the exact forward score (summation order is reversed)",
-            "only the DNA alphabet is complementable",
+            "only the DNA alphabet shipped by the library is complementable; the harness declares a second one (RNA, another complement permutation) through the public traits and reverse-complements one RNA matrix of each kind before the first DNA matrix of the process - nothing is asserted about the RNA results",
         ],
     }
 }
